@@ -103,7 +103,8 @@ def _boolop_constant_collapse(rec):
     dropped - the *value* (1 or x -> True) and the side effects of the other operands (t() or True -> True) are lost."""
     rule, before, after = _step(rec)
     if rule != "symbolic_math.simplify_boolean_expressions" or rec.get("kind") not in (
-            "folded_program_behaves_differently", "step_changes_behaviour", "program_behaves_differently", "formula_value_differs"):
+            "folded_program_behaves_differently", "step_changes_behaviour", "program_behaves_differently", "formula_value_differs",
+            "deleted_code_was_observable"):
         return False
     tree = _parse(before or "")
     if tree is None:
@@ -179,3 +180,23 @@ def _c17_sum_rounding(rec):
     rule, before, after = _step(rec)
     return (rec.get("kind") == "formula_value_differs" and rule in ("symbolic_math.simplify_math_iterators", "fixes.inline_math_comprehensions", "main.format_code")
             and rec.get("difference_causes") == ["float_rounding"] and "/" in (after or ""))
+
+
+# ----------------------------------------------------------------------------------------- C16
+@classifier("pointless-higher-order-builtin-call")
+def _c16_higher_order(rec):
+    """has_side_effect treats a call of a whitelisted builtin as pure when its arguments are names; a callable passed
+    to map/filter/sorted/min/max(key=) is called all the same: `list(map(log, xs))` is deleted as pointless."""
+    rule, before, after = _step(rec)
+    if rec.get("kind") != "deleted_code_was_observable" or rule != "fixes.delete_pointless_statements":
+        return False
+    tree = _parse(before or "")
+    if tree is None:
+        return False
+    for n in ast.walk(tree):
+        if isinstance(n, ast.Expr) and any(
+                isinstance(c, ast.Call) and isinstance(c.func, ast.Name) and c.func.id in ("map", "filter", "sorted", "min", "max", "reduce")
+                and (any(isinstance(a, (ast.Name, ast.Attribute, ast.Lambda)) for a in c.args[:1]) or any(k.arg == "key" for k in c.keywords))
+                for c in ast.walk(n)):
+            return True
+    return False
